@@ -178,4 +178,24 @@ CHECKS['C20'] = {
     'assumptions': [],
 }
 
+CHECKS['C04'] = {
+    'jobs': {'quick': [J('c04_abort.cpp', ['KMAX=10'], wall=280, markers=(1, 2, 3), opts={'max_instr': 3000000})],
+             'thorough': [J('c04_abort.cpp', ['KMAX=16'], wall=900, markers=(1, 2, 3), opts={'max_instr': 3000000})]},
+    'bounds': {'quick': '14 operation kinds (timer wait; TCP connect, refused connect, read, wait-read, blocked write; the three accepts; UDP receive_from, receive, wait-read, wait-write; resolve) x '
+                        '6 interventions (none, cancel, close, destroy, supersede / re-arm, handler throws) x every event boundary k in -1..10 (and at quiescence) x awaited event arrives after 3 ms or never',
+               'thorough': 'boundaries up to 16'},
+    'outside': ['interventions on operations of other objects of the same scenario', 'lossy routes (see C12 thorough)'],
+    'assumptions': ['step hook in simulation::run() (guard LIBSIMULATOR_VERIF): one handler per poll_one()'],
+}
+CHECKS['C12'] = dict(CHECKS['C04'])
+CHECKS['C12'] = {
+    'jobs': {'quick': [J('c04_abort.cpp', ['KMAX=10'], wall=280, markers=(1, 2, 3), opts={'max_instr': 3000000}),
+                       J('c05_tcp.cpp', ['LEN=5', 'LOSS=2', 'PROGRESS=0', 'DIR=0'], wall=200, markers=(1, 2))],
+             'thorough': [J('c04_abort.cpp', ['KMAX=16'], wall=900, markers=(1, 2, 3), opts={'max_instr': 3000000}),
+                          J('c05_tcp.cpp', ['LEN=8', 'LOSS=2', 'PROGRESS=0', 'DIR=0'], wall=900, markers=(1, 2))]},
+    'bounds': CHECKS['C04']['bounds'],
+    'outside': ['destruction of a TCP socket while its segments are still queued in a lossy route is covered only for the close() case (c05_tcp LOSS=2); see known findings'],
+    'assumptions': ['the engine object model is the memory-safety oracle (freed / dead stack / out of bounds / null / invalid call); confirmed natively under ASan+UBSan+_GLIBCXX_ASSERTIONS'],
+}
+
 NOT_APPLICABLE = {}
